@@ -50,6 +50,7 @@ def run(args):
         projects = [c for c in cases if c[0].startswith("c02 project ")]
         negative = [c for c in cases if c[0].startswith("c02 negative ")]
         derive = [c for c in cases if c[0].startswith("c02 derive ")]
+        examples = [c for c in cases if c[0].startswith("c02 example ")]
         model = ctx.run_driver([c[0] for c in core])
         ctx.tie("model chkB (checker as implemented) and rustB (lowering + rustc) = real checker verdict and real build outcome, on well-typed, borderline and ill-typed variants of generated function bodies",
                 [(r, " ".join(o.split(" ")[:2]).strip()) for r, o in core], model)
@@ -82,8 +83,8 @@ def run(args):
                 failures.append({"request": req, "real": real, "why": "checker accepts, build fails"})
             else:
                 failures.append({"request": req, "real": real, "why": "no checker verdict"})
-        hist.update({"negative_rejected": 0, "derive_subsets_built": 0})
-        for req, real in negative + derive:
+        hist.update({"negative_rejected": 0, "derive_subsets_built": 0, "repository_examples_built": 0})
+        for req, real in negative + derive + examples:
             ctx.nontrivial.add(req)
             kind = req.split(" ")[1]
             if real == "reject":
@@ -91,6 +92,8 @@ def run(args):
             elif real.startswith("accept built"):
                 if kind == "derive":
                     hist["derive_subsets_built"] += 1
+                if kind == "example":
+                    hist["repository_examples_built"] += 1
             elif real.startswith("accept"):
                 failures.append({"request": req, "real": real, "why": "the checker accepts this program but the generated project does not build"})
             else:
@@ -108,5 +111,5 @@ def run(args):
         ctx.coverage_extra = {"histogram": hist, "harness_meta": metas, "oracle_failures": len(failures)}
     ctx.conclude_broken_obligations(failures)
     return ctx.finish(
-        rule="generated function bodies of the core fragment (as in C01) in 9 variants: well-typed, immutable accumulator, re-typing an outer variable from a nested block, same-block re-typing, undefined name, `mut` shadow inside a block, compound / plain assignment to an immutable whose name is bound mutably in an earlier function, wrong return type — checker verdict in-process, then every program built by rustc in one batch; 19 ill-typed programs the checker must not let through to rustc; derive subsets (10 derives, rotated order, model and class) built; 21 probes, one per recorded construct that type-checks but does not build; multi-file projects with nested module directories built by the real `incan build`; distinct = distinct request",
+        rule="generated function bodies of the core fragment (as in C01) in 9 variants: well-typed, immutable accumulator, re-typing an outer variable from a nested block, same-block re-typing, undefined name, `mut` shadow inside a block, compound / plain assignment to an immutable whose name is bound mutably in an earlier function, wrong return type — checker verdict in-process, then every program built by rustc in one batch; 19 ill-typed programs the checker must not let through to rustc; derive subsets (10 derives, rotated order, model and class) built; every single-file example and valid fixture of the repository that needs no external crate built and run; 21 probes, one per recorded construct that type-checks but does not build; multi-file projects with nested module directories built by the real `incan build`; distinct = distinct request",
         extra_cov=getattr(ctx, "coverage_extra", None))
